@@ -197,6 +197,15 @@ def _one(rng, fam, at, mon, sigs, hist):
                                               circle_fit_method=["dlite", "taubinSVD"][int(rng.integers(2))], **kw0)
                 except Exception:
                     pass
+                if rng.random() < 0.5:
+                    # ... and the mesh is translated in place afterwards (registration, centring): nothing measured for the old
+                    # position may enter the system that is assembled now
+                    d_ = complex(*rng.uniform(-1, 1, 2)) * at.bbox_diam()
+                    for v_ in r.vertices.values():
+                        v_.x, v_.y = float(v_.x + d_.real), float(v_.y + d_.imag)
+                    at = at.similarity(shift=d_)
+                    r.at = at
+                    hist["translated-in-place-between-builds"] = hist.get("translated-in-place-between-builds", 0) + 1
                 CTX["cur"] = {"at": at, "r": r, "fit": fit, "ignore_four": ign, "fam": fam, "pose": posed}
                 hist["rebuilt-with-other-options"] = hist.get("rebuilt-with-other-options", 0) + 1
             if not ign and rng.random() < 0.4:
